@@ -3,10 +3,11 @@ from checks.client_common import *
 
 LEVEL = "model_checking"
 
-BASE = dict(QueueCap=2, MaxInflight=2, MaxPending=1, MutKeepTimedOut=False, NReq=3, CBs={True, False},
+BASE = dict(QueueCap=2, MaxInflight=2, MaxPending=1, MutKeepTimedOut=False, MutArmLatest=False, NReq=3, CBs={True, False},
+            Classes={"short", "long"},
             Kinds={"inter", "final", "abort"}, CloseStats={"Good", "BadCommunicationError"}, MaxChunks=6, MaxDepth=8,
             MinCloseDepth=0, ForceClose=False, Script=[], AllStale=True)
-PREDICTED = ("took", "id", "hit", "h", "closed", "out", "st")
+PREDICTED = ("took", "id", "hit", "h", "armed", "closed", "out", "st")
 
 
 def cfg_of(c):
@@ -17,19 +18,25 @@ def run(ctx):
     q = ctx.quick
     inv = ["C35", "GhostOnce", "GhostOwn"]
     # the design: all interleavings, the L2 monitor and the statement on the ghost completions
-    ctx.model_check("design", "MCClientTransport", dict(BASE, MaxDepth=8 if q else 12), inv, view="MView")
+    ctx.model_check("design", "MCClientTransport", dict(BASE, MaxDepth=8 if q else 12, MaxChunks=4 if q else 6), inv, view="MView")
     if not q:
         ctx.model_check("design_tight_queue", "MCClientTransport",
                         dict(BASE, QueueCap=1, MaxInflight=1, MaxPending=2, MaxDepth=12, MaxChunks=5), inv, view="MView")
         ctx.model_check("design_4_requests", "MCClientTransport",
                         dict(BASE, NReq=4, MaxInflight=3, QueueCap=2, MaxPending=0, MaxDepth=10, CBs={True}), inv, view="MView")
-    # the monitor is not vacuous: a transport that answers a timed-out request but keeps it pending is caught
-    ctx.model_check("mutant_keep_timed_out", "MCClientTransport", dict(BASE, MutKeepTimedOut=True, MaxDepth=8), ["C35"],
-                    view="MView", expect_violation="C35")
+        # the monitor is not vacuous: a transport that answers a timed-out request but keeps it pending is caught
+        ctx.model_check("mutant_keep_timed_out", "MCClientTransport", dict(BASE, MutKeepTimedOut=True, MaxDepth=8), ["C35"],
+                        view="MView", expect_violation="C35")
+        # ... nor is the clause on the timer: arming it for the latest pending deadline is caught
+        ctx.model_check("mutant_arm_latest", "MCClientTransport", dict(BASE, MutArmLatest=True, MaxDepth=8), ["C35"],
+                        view="MView", expect_violation="C35")
     gens = []
-    two = [["Submit", True], ["Submit", True], ["Poll"], ["Poll"]]           # two requests pending
-    three = [["Submit", True], ["Submit", True], ["Poll"], ["Submit", True]]   # one pending, one queued, one waiting for room
-    for nm, c, cap in (("exhaustive", dict(BASE, ForceClose=True, MaxDepth=5 if q else 7, MaxChunks=4), 1000 if q else 25000),
+    # two requests pending, the one with the LATER deadline submitted (and taken) first
+    two = [["Submit", True, "long"], ["Submit", True, "short"], ["Poll"], ["Poll"]]
+    # one pending, one queued, one waiting for room
+    three = [["Submit", True, "short"], ["Submit", True, "long"], ["Poll"], ["Submit", True, "short"]]
+    for nm, c, cap in (("exhaustive", dict(BASE, ForceClose=True, MaxDepth=5 if q else 7, MaxChunks=4, Classes={"long"} if q else {"short", "long"}),
+                        1000 if q else 25000),
                        ("exhaustive_two_pending", dict(BASE, ForceClose=True, Script=two, CBs={True}, CloseStats={"Good"},
                                                        MaxDepth=4 + (4 if q else 6), MaxChunks=5), 1500 if q else 40000),
                        ("exhaustive_tight", dict(BASE, ForceClose=True, Script=three, QueueCap=1, MaxInflight=1, MaxPending=2, CBs={True},
@@ -40,7 +47,7 @@ def run(ctx):
     rnd = (("random", dict(BASE, ForceClose=True, NReq=6, MaxInflight=3, QueueCap=2, MaxPending=2, MaxChunks=14, MaxDepth=24, MinCloseDepth=16, AllStale=False,
                            CloseStats={"Good", "BadSecureChannelClosed"})),
            ("random_tight", dict(BASE, ForceClose=True, NReq=5, MaxInflight=1, QueueCap=1, MaxPending=1, MaxChunks=12, MaxDepth=20, MinCloseDepth=12, AllStale=False, Kinds={"inter", "final"})))
-    for nm, c in rnd:
+    for nm, c in (rnd[:1] if q else rnd):
         h, r = ctx.gen(nm, "GenClientTransport", c, simulate="num=%d" % max(40, n // 8))
         gens.append((nm, cfg_of(c), take(h, n, ctx.seed)))
     ctx.cov["exhaustive"] = True
@@ -56,9 +63,12 @@ def run(ctx):
              "interleaved) / Expire / Close / Submit after close, exhaustive to a depth bound from three starting points (fresh "
              "transport; two requests pending; queue of capacity 1 with one request pending, one queued and one waiting for room; a "
              "deterministic sample when there are more behaviours than the tier replays), plus random simulation to depth 20-24 with up to 6 requests, replayed on the real TransportState / "
-             "Request::send; non-trivial = a response delivered, another kind of completion, and a chunk for a request id that is "
+             "Request::send; requests have short or long timeouts and every Poll also records for which pending request the "
+             "transport's timer is armed (the real next_timeout); non-trivial = a response delivered, another kind of completion, and a chunk for a request id that is "
              "no longer pending")
     ctx.assumptions += ["the harness stands in for TcpTransport::poll: it calls wait_for_outgoing_message / handle_incoming_message / "
                         "close and closes the transport with the error of a failed incoming message; sockets and the codec are not involved",
-                        "time passes only through the cfg-guarded hook that moves the deadline of a pending request into the past",
+                        "time passes only through the cfg-guarded hook that moves the deadline of a pending request into the past; that the "
+                        "transport wakes at the right moment is observed as the instant its timer is armed for (hook calling the real "
+                        "private next_timeout), not by waiting in real time; short / long timeouts are 1000 s / 3000 s",
                         "response chunks are MessageChunk::new chunks (policy None) of one ReadResponse body split as Chunker::encode splits it"]
